@@ -88,6 +88,7 @@ type Spec struct {
 	IgnoreLHS  []string          // assignments to these targets (Go source of the lvalue) are dropped (e.g. `intervals = append(...)`)
 	Ret        string            // "errlast" (Option tuple), "tuple", "state" (return value followed by StateVars)
 	StateVars  []string          // Lean variable names appended to every return in "state" mode
+	Calls      map[string]string // Go function source (e.g. "min") -> Lean function applied to the translated arguments
 }
 
 type tr struct {
@@ -193,6 +194,18 @@ func (t *tr) expr(e ast.Expr) string {
 		case token.LOR:
 			return "(" + a + " || " + b + ")"
 		}
+	case *ast.CompositeLit:
+		// unkeyed struct literal of scalar fields, e.g. fetchRange{start, batchEnd - 1} -> Lean tuple
+		if len(x.Elts) >= 2 {
+			var parts []string
+			for _, el := range x.Elts {
+				if _, keyed := el.(*ast.KeyValueExpr); keyed {
+					failf(e, "keyed composite literal unsupported: %s", s)
+				}
+				parts = append(parts, t.expr(el))
+			}
+			return "(" + strings.Join(parts, ", ") + ")"
+		}
 	case *ast.CallExpr:
 		switch src(x.Fun) {
 		case "time.Now":
@@ -207,6 +220,14 @@ func (t *tr) expr(e ast.Expr) string {
 			if len(x.Args) == 1 {
 				return "(I64.sub now_ " + t.expr(x.Args[0]) + ")"
 			}
+		}
+		// calls of other regenerated kernels (Spec.Calls)
+		if ln, ok := t.sp.Calls[src(x.Fun)]; ok {
+			parts := []string{ln}
+			for _, a := range x.Args {
+				parts = append(parts, t.expr(a))
+			}
+			return "(" + strings.Join(parts, " ") + ")"
 		}
 		// conversions
 		switch src(x.Fun) {
